@@ -54,6 +54,14 @@ class C11(CurveCheck):
                 for (v, s) in wallets + wallets[::-1]:
                     cs.append(Case("subaddr %s %s %d %d %s" % (v, s, i, j, NETS[(k + rep) % 4]), "index-major-order"))
                     k += 1
+        # wallets that share the view key but not the spend key (and the other way round), same index, back to back: a result
+        # remembered under (view key, index) alone - the inputs of m - must not stand in for s + m or S + m*G
+        for rep in range(3 if q else 20):
+            v1, v2, s1, s2 = (le(rng.randrange(L)).hex() for _ in range(4))
+            for (i, j) in ((1, 0), (0, 1), (3, 7)):
+                for (v, s) in ((v1, s1), (v1, s2), (v1, s1), (v2, s1), (v1, s1)):
+                    cs.append(Case("subaddr %s %s %d %d %s" % (v, s, i, j, NETS[k % 4]), "shared-view-or-spend-key"))
+                k += 1
         # edge scalars
         for v, s in ((0, 0), (1, 1), (L - 1, L - 1), (0, L - 1), (L - 1, 1)):
             for (i, j) in ((0, 0), (0, 1), (1, 0), (2**32 - 1, 2**32 - 1)):
